@@ -12,9 +12,9 @@ import (
 
 func vfC19N(tier int) int {
 	if tier == 0 {
-		return vfNOps + 42
+		return vfNOps + len(vfHand) + 42
 	}
-	return vfNOps + 42 + 400
+	return vfNOps + len(vfHand) + 42 + 400
 }
 
 func vfSameResult(a, b []orb.Pointer) bool {
